@@ -9,6 +9,9 @@ R-C05-3  the proof's extension-degree tag is tied to d1 at the only two construc
 R-C05-4  the two views of one datum agree: compressed vectors are the whole, in-order compress() map of the uncompressed ones at their
          only construction sites
 R-C05-5  rejection, not panic: shared with C16 (verification entry points)
+R-C05-6  = R-C04-1..4: binding rests on the Fiat-Shamir schedule -- every component is absorbed, into the caller's transcript (its initial
+         state is kept: nothing replaces or re-creates it), before the challenges that use it
+R-C05-7  = R-C17-3 for RangeStatement::init: the statement the verifier reads stores the caller's generators, commitments and promises
 """
 from bpsa.facts import callee_decl, callee_name
 from bpsa.normal import canon
@@ -27,7 +30,7 @@ RULE_TEXT = 'one obligation per component and use kind; non-trivial = decided fr
 ALLOWED = {'chunks', 'chunks_mut'}
 
 
-def run(ctx):
+def _run(ctx):
     rep = ctx.rep
     g = weights.gate(ctx, 'R-C05-1')
     vb = wire.entry(ctx, 'verifier', 'R-C05-1')
@@ -237,6 +240,13 @@ def directly_wraps(adapter, field):
     while t.tag in ('enumerate', 'map', 'adapt', 'via', 'elem'):
         t = strip(t[2] if t.tag in ('adapt', 'via') else t[1])
     return t.tag == 'field' and t[1] == field
+
+def run(ctx):
+    _run(ctx)
+    from . import C04, C17
+    from .common import shared
+    shared(ctx, C04.run, 'R-C04', 'R-C05-6')
+    shared(ctx, lambda c: C17.stored_fields(c, only={'RangeStatement::<P>::init': ['generators', 'commitments', 'minimum_value_promises']}), 'R-C17-3', 'R-C05-7')
 
 
 def thorough(rep):
